@@ -17,6 +17,7 @@ sys.path.insert(0, os.path.join(os.path.dirname(os.path.abspath(__file__)), ".."
 import vlib, runner
 
 PID = "C08"
+CLS_SIZE, CLS_ALLOC, CLS_NEW = 3, 4, 5          # positions of Size, Alloc, New in the harness class table
 NB, NC = 29, 42          # 30 built-in classes + 12 decoy classes of the harness whose names extend / shorten / re-case built-in names
 MEMBERS = [6, 1, 1, 1, 2, 2, 1, 1, 1, 1, 1, 1, 5, 4, 2, 6, 1, 1, 1, 1, 1, 8, 2, 1, 2, 2, 1, 4, 3, 1] + [1] * 12
 HOWS = ["inst", "impl", "tinst", "timpl", "meth", "tmeth", "implm", "timplm", "simpl", "sinst"]
@@ -80,6 +81,17 @@ def runtime_exec(rng, big=False):
                     L.append("rert %d %s" % (t, " ".join(map(str, cl))))
                     L.append("decl %d" % t)
                     L.append("look %s %d %d %d" % (how, t, c, m))
+    # two Type objects handed to swap after warm lookups (refused), then the same lookups again
+    for (a, b) in ((ts[0], ts[-1] if len(ts) > 1 else rng.randrange(NB)), (rng.randrange(NB), rng.randrange(NB))):
+        if a == b: continue
+        L += ["decl %d" % a, "decl %d" % b]
+        for t in (a, b):
+            for c in (CLS_NEW, CLS_SIZE, CLS_ALLOC):
+                if c is not None: L.append("look tinst %d %d 0" % (t, c))
+        L.append("swaptypes %d %d" % (a, b))
+        for t in (a, b):
+            for c in (CLS_NEW, CLS_SIZE, CLS_ALLOC):
+                if c is not None: L.append("look tinst %d %d 0" % (t, c))
     for _ in range(6):
         a, b = rng.randrange(NB), rng.randrange(NB)
         L.append("cast %d %d" % (a, b if rng.random() < 0.7 else a))
